@@ -210,7 +210,15 @@ func (eng *Engine) encodeFunc(fn *ssa.Function, ct *Contract) *FuncResult {
 		ct.Used = true
 		for _, g := range ct.Ghosts {
 			s := ghostSort(g.Type)
-			a.ghosts[g.Name] = Val{Sort: s, Term: vc.declare("ghost_"+g.Name, s)}
+			gv := Val{Sort: s, Term: vc.declare("ghost_"+g.Name, s)}
+			if gt := a.baseEnv(entry).lookupType(g.Type); gt != nil {
+				// a ghost of a Go type (e.g. *Clause): typed like a parameter
+				if gs, ok := vc.sortOf(gt); ok {
+					gv = a.freshVal(gt, "ghost_"+g.Name, entry)
+					_ = gs
+				}
+			}
+			a.ghosts[g.Name] = gv
 			if s == SortAsg {
 				vc.assume("true", app("asgmark", a.ghosts[g.Name].Term))
 			}
